@@ -25,10 +25,15 @@ func validatePerBlockReward(r interface{}) error {
 	if len(reward) == 0 {
 		return fmt.Errorf("invalid per block reward: %v", reward)
 	}
+	seen := make(map[string]bool, len(reward))
 	for _, rr := range reward {
 		if len(rr.Denom) == 0 {
 			return fmt.Errorf("denom of per block reward can not be empty")
 		}
+		if seen[rr.Denom] {
+			return fmt.Errorf("duplicate denom in per block reward: %s", rr.Denom)
+		}
+		seen[rr.Denom] = true
 		if rr.IsNegative() {
 			return fmt.Errorf("invalid per block reward: %v", rr)
 		}
